@@ -13,9 +13,9 @@ from collections import defaultdict
 
 from engine import tlc, core, tracecheck
 
-ACTIONS = ["Accept", "RxNoise", "RxFeatures", "RxBarrier", "RxBarrierReject", "RxErr",
-           "RxPortStatus", "RxEchoFail", "RxEchoFailThen", "Disconnect", "Close", "SendTo",
-           "SendToFail"]
+ACTIONS = ["StepAccept", "StepNoise", "StepFeatures", "StepBarrier", "StepReject", "StepErr",
+           "StepPortStatus", "StepEchoFail", "StepEchoFailThen", "StepDisconnect", "StepClose",
+           "StepSendTo", "StepSendToFail"]
 ADAPTER = "harness.adapters_c09:Adapter"
 SPEC = "handshake"
 
@@ -109,8 +109,11 @@ def run(ctx):
   ctx.assumptions = [
       "bounds: <=3 connections (4 in random traces), 2 datapath ids, 2 port numbers, <=2 "
       "(3 in traces) buffered early port-status per connection",
-      "one OpenFlow message per socket read (segmentation is C02's subject); after the controller "
-      "shuts a socket down the peer sends nothing more",
+      "segmentation is part of the spec: k>=1 consecutive messages of a connection in ONE read "
+      "and a message split over two reads (exhaustively for 1 connection, randomly in the traces; "
+      "byte-level cut positions are C02's subject); nothing carrying the barrier's xid shares a "
+      "read with the features reply (the switch cannot have seen the request); after the "
+      "controller shuts a socket down the peer sends nothing more",
       "exactly one features reply per connection; no features reply after connection-up",
       "no event handler halts an event; default OpenFlowConnectionArbiter; DeferredSender idle "
       "(sends complete or fail outright)",
@@ -119,7 +122,8 @@ def run(ctx):
       "OpenFlow bytes built/decoded by harness/rawbytes.py (struct only)"]
 
   # 1. the property on the model
-  mcs = [("2 connections, 2 dpids, 2 ports, MaxPS=2", "MC_C2.cfg"),
+  mcs = [("2 connections, 2 dpids, %d port(s), MaxPS=2, coalesced and split reads" %
+          (1 if quick else 2), "MC_C2q.cfg" if quick else "MC_C2.cfg"),
          ("3 connections, 2 dpids, 1 port, MaxPS=%d" % (1 if quick else 2),
           "MC_C3q.cfg" if quick else "MC_C3.cfg")]
   for name, cfg in mcs:
@@ -138,8 +142,9 @@ def run(ctx):
   if quick:
     plan = [("EX_edges_C1.cfg", [0]), ("EX_edges_C2s.cfg", [1]), ("EX_edges_C3d1.cfg", [2])]
   else:
-    plan = [("EX_edges_C1.cfg", [0, 1, 2, 3]), ("EX_edges_C2.cfg", [1, 0, 3]),
-            ("EX_edges_C3d1.cfg", [2, 1]), ("EX_edges_C3.cfg", [0])]
+    plan = [("EX_edges_C1.cfg", [0, 1, 2, 3]), ("EX_edges_C2seg.cfg", [2]),
+            ("EX_edges_C2.cfg", [1, 0, 3]), ("EX_edges_C3d1.cfg", [2, 1]),
+            ("EX_edges_C3.cfg", [0])]
   for cfg, variants in plan:
     r = tlc.run(SPEC, "MCHandshake", cfg, workers=1, coverage=False, tag="C09", timeout=1500)
     raw = r.tagged("T")
@@ -161,15 +166,16 @@ def run(ctx):
   traces = core.run_driver("props.C09:drive",
                            [(ctx.seed * 100003 + i, length) for i in range(ntr)])
   good, bad = control_traces()
-  r, rej = tracecheck.validate(SPEC, "TraceHandshake", "Trace.cfg", traces + [good] + bad,
+  r, rej = tracecheck.validate(SPEC, "TraceHandshake", "Trace.cfg", traces + good + bad,
                                tag="C09")
   ctx.add_model("TraceHandshake (validation of %d implementation traces)" % ntr, r)
   rejected = dict(rej)
-  if len(traces) in rejected:
-    raise tlc.TLCError("positive control (hand-written correct history) was rejected at event %d"
-                       % rejected[len(traces)])
+  for i in range(len(good)):
+    if len(traces) + i in rejected:
+      raise tlc.TLCError("positive control %d (hand-written correct history) was rejected at "
+                         "event %d" % (i, rejected[len(traces) + i]))
   for i in range(len(bad)):
-    if len(traces) + 1 + i not in rejected:
+    if len(traces) + len(good) + i not in rejected:
       raise tlc.TLCError("negative control %d (corrupted history) was accepted by the trace spec" % i)
   from harness.adapters_c09 import classify_trace
   nrej = 0
@@ -193,8 +199,8 @@ def run(ctx):
   ctx.exhaustive = True
 
 
-def _e(a, c=0, d=0, p=0, k="", ev=(), reg=(), gone=(), to=0, ok=True):
-  return dict(a=a, args=dict(c=c, d=d, p=p, k=k),
+def _e(a, c=0, d=0, p=0, k="", s="own", ev=(), reg=(), gone=(), to=0, ok=True):
+  return dict(a=a, args=dict(c=c, d=d, p=p, k=k, s=s),
               obs=dict(ev=list(ev), reg=[list(x) for x in reg], gone=list(gone), to=to, ok=ok),
               wf=True)
 
@@ -226,7 +232,22 @@ def control_traces():
   variant(3, ev=[dict(up, r=0, t=0), ps])  # registry empty while connection-up is delivered
   variant(3, ev=[dict(up, t=0), ps])      # send by dpid from the connection-up handler lost
   variant(5, ev=[dict(dn, r=1, t=1)])     # registry still leads to c during connection-down
-  return good, bad
+  # the same history with the port-status, the barrier reply and a later
+  # port-status COALESCED in one read, the last message split over two reads
+  ps2 = dict(k="PS", c=1, x=1, r=1, t=1)
+  good2 = [_e("Accept", c=1), _e("RxFeatures", c=1, d=1), _e("RxPortStatus", c=1, p=2, s="more"),
+           _e("RxBarrier", c=1, k="match", s="more"),
+           _e("RxPortStatus", c=1, p=1, s="split", ev=[up, ps, ps2], reg=[(1, 1)]),
+           _e("Close", c=1, ev=[dn], gone=[1])]
+  def variant2(i, **obs):
+    t = copy.deepcopy(good2)
+    t[i]["obs"].update(obs)
+    bad.append(t)
+  variant2(4, ev=[up, ps])                # message behind the barrier reply lost
+  variant2(4, ev=[up, ps2, ps])           # ... delivered out of order
+  variant2(4, ev=[up, ps, ps2, ps2])      # ... delivered twice
+  variant2(3, ev=[up, ps], reg=[[1, 1]])  # effects visible before the read was delivered
+  return [good, good2], bad
 
 
 NOISE = ["hello", "desc", "echo", "pktin"]
@@ -248,12 +269,28 @@ def drive(arg):
   featsent, announced, nps = {}, set(), {}
   reg = {}
   tr = []
-  for _ in range(n):
+  rd, rdlen, rdfeat = 0, 0, False     # open coalesced read: connection, length, has features
+  for stepno in range(n):
     live = [c for c in accepted if c not in closed and c not in gone]
     opts = []
-    if len(accepted) < NCMAX:
+    if rd:
+      # inside a read only further messages of that connection can follow
+      c = rd
+      for k in NOISE:
+        opts.append((0.5, "RxNoise", c, 0, 0, k))
+      if c not in featsent:
+        for d in (1, 2):
+          opts.append((2, "RxFeatures", c, d, 0, ""))
+      if c in featsent and not rdfeat:
+        opts.append((3, "RxBarrier", c, 0, 0, "match"))
+        opts.append((1, "RxErr", c, 0, 0, "unsup"))
+      opts.append((0.3, "RxErr", c, 0, 0, "xid"))
+      if nps.get(c, 0) < MAXPS:
+        for p in (1, 2):
+          opts.append((1.5, "RxPortStatus", c, 0, p, ""))
+    elif len(accepted) < NCMAX:
       opts.append((3 if not live else 1, "Accept", len(accepted) + 1, 0, 0, ""))
-    for c in live:
+    for c in ([] if rd else live):
       half = c not in announced
       for k in NOISE:
         opts.append((0.4, "RxNoise", c, 0, 0, k))
@@ -276,10 +313,10 @@ def drive(arg):
         for k in ("match", "unsup"):
           opts.append((0.15, "RxEchoFailThen", c, 0, 0, k))
       opts.append((0.5, "Disconnect", c, 0, 0, ""))
-    for c in accepted:
+    for c in ([] if rd else accepted):
       if c not in closed:
         opts.append((1.2 if c in gone else 0.6, "Close", c, 0, 0, ""))
-    for d in (1, 2):
+    for d in ([] if rd else (1, 2)):
       opts.append((0.7, "SendTo", 0, d, 0, ""))
       if d in reg:
         opts.append((0.5, "SendToFail", 0, d, 0, ""))
@@ -290,7 +327,15 @@ def drive(arg):
       if x <= 0:
         break
     _, a, c, d, p, k = o
-    args = dict(c=c, d=d, p=p, k=k)
+    seg = "own"
+    if a in ("RxNoise", "RxFeatures", "RxBarrier", "RxErr", "RxPortStatus"):
+      x = rnd.random()
+      last_chance = rdlen >= 3 or stepno >= n - 1
+      if x < (0.55 if rd else 0.2) and not last_chance and not (a == "RxBarrier" and k == "other"):
+        seg = "more"
+      elif x < 0.75 if rd else x < 0.3:
+        seg = "split"
+    args = dict(c=c, d=d, p=p, k=k, s=seg)
     try:
       obs = ad.step(a, args)
       wf = True
@@ -302,13 +347,19 @@ def drive(arg):
       break
     tr.append(dict(a=a, args=args, obs=obs, wf=True))
     # bookkeeping
+    in_read = rd != 0 or seg == "more"
+    if seg == "more":
+      rd, rdlen = c, rdlen + 1
+      rdfeat = rdfeat or a == "RxFeatures"
+    else:
+      rd, rdlen, rdfeat = 0, 0, False
     if a == "Accept":
       accepted.append(c)
     elif a == "RxFeatures":
       featsent[c] = d
     elif a == "Close":
       closed.add(c)
-    elif a == "RxPortStatus" and c not in announced:
+    elif a == "RxPortStatus" and (c not in announced or in_read):
       nps[c] = nps.get(c, 0) + 1
     for e in obs["ev"]:
       if e["k"] == "Up":
